@@ -10,6 +10,7 @@ THEOREMS = [_T + n for n in [
     "only_input_error", "urlencoded_roundtrip", "urlencoded_roundtrip_entry", "limits_enforced_parts", "limits_enforced_parts_reject",
     "limits_enforced_header", "multipart_roundtrip", "multipart_roundtrip_refuted", "multipart_disposition_recovered",
     "multipart_trailing_backslash_fixed", "multipart_trailing_backslash_recovered", "limits_exact",
+    "multipart_disposition2231_recovered", "multipart_roundtrip_2231", "limits_exact_2231",
 ]]
 TRUSTED = [
     "bytes.find/rfind/split, str.split/strip/partition/startswith, UTF-8 decoding, urllib.parse.parse_qs(l)/unquote (latin-1), "
@@ -27,23 +28,24 @@ ASSUMPTIONS = [
     "([\\x00-\\x08\\x0a-\\x1f\\x7f]); names are non-empty; upload filenames are non-empty",
     "Content-Disposition parameter names contain no non-ASCII cased letters (see C43)",
 ]
-RULE = ("forms of 0-6 fields/files (binary contents, empty values, repeated names, quoted/escaped/non-ASCII names) encoded as multipart "
-        "(quoted-string or RFC 2231 parameters) or urlencoded; every single-byte mutation of small bodies; arbitrary bodies and content "
+RULE = ("forms of 0-6 fields/files (binary contents, empty values, repeated names, quoted/escaped/non-ASCII names; control-character names "
+        "and filenames in the RFC 2231 form) encoded as multipart (quoted-string or RFC 2231 parameters) or urlencoded; every single-byte mutation of small bodies; arbitrary bodies and content "
         "types; limits at count-1/count/count+1; non-trivial = a form with >=1 part parsed successfully, or a mutated body")
 EXHAUSTIVE = {"quick": False, "thorough": False}
 CLAUSE_CAVEATS = [
-    "the RFC 2231 (name*=charset''…) form of the lossless clause is tie-only; multipart_roundtrip is for the quoted-string form",
     "only_input_error holds by construction of the model's catch-all; the clause is carried by the tie's 'no other exception type' oracle",
 ]
 CLAUSES = {
     "multipart with a boundary occurring nowhere in the content is recovered exactly": "multipart_roundtrip (side condition: boundary without LF — "
         "multipart_roundtrip_refuted shows the clause is false as written for a boundary containing CR LF, which no Content-Type header can carry); "
         "the former side condition 'no upload whose field name ends in a backslash' is gone with the fix 112a637: multipart_disposition_recovered, "
-        "multipart_trailing_backslash_fixed / multipart_trailing_backslash_recovered evaluate the old witness",
+        "multipart_trailing_backslash_fixed / multipart_trailing_backslash_recovered evaluate the old witness; "
+        "RFC 2231 parameters (name*=utf-8''pct): multipart_roundtrip_2231 (names/filenames ANY non-empty scalar-valued text, control "
+        "characters included; same side condition), multipart_disposition2231_recovered (_parse_header level)",
     "urlencoded forms are recovered exactly": "urlencoded_roundtrip, urlencoded_roundtrip_entry",
     "any other body succeeds or raises HTTPInputError, never another exception": "only_input_error",
     "part-count and part-header-size limits are enforced": "limits_enforced_parts, limits_enforced_parts_reject, limits_enforced_header, "
-        "limits_exact (encoded forms: = accepted, > refused with HTTPInputError, both limits)",
+        "limits_exact, limits_exact_2231 (encoded forms, both parameter styles: = accepted, > refused with HTTPInputError, both limits)",
 }
 PARALLEL = True
 CASE_TIMEOUT = 120   # pure functions: only a runaway mutant gets here; generous because the pool may be starved on a loaded machine
@@ -57,6 +59,8 @@ VALUES = [b"", b"v", b"hello world", b"\x00\xff\xfe", b"line1\r\nline2", b"--", 
 BOUNDARIES = ["zZ9", "1234", "----WebKitFormBoundaryAbC123", "boundary", "b", "a'b", "x=y", "(+_,-./:?)", "B--", "--", "é", "a b", "\"", "q\"q",
               "0" * 70]
 _FORBIDDEN = re.compile(r"[\x00-\x08\x0a-\x1f\x7f]")
+# names / filenames only the RFC 2231 form can carry (they travel percent-encoded): control characters, CR LF, DEL, NUL
+R_ONLY = ["a\nb", "\x00", "\r\n", "x\x7f", "\x1f;\"", "tab\there\n", "\x0b\x0c", "\x85\u2028", "'", "utf-8''%41", "\n"]
 
 
 # ----------------------------------------------------------------------------------------------- encoders (generator side)
@@ -151,6 +155,12 @@ def _form_case(rng, maxparts=6):
     boundary = rng.choice(BOUNDARIES[:4]) if rng.random() < 0.6 else rng.choice(BOUNDARIES)
     form = "q" if rng.random() < 0.7 else "r"
     parts = _parts(rng, rng.randint(0, maxparts))
+    if form == "r":
+        for p in parts:
+            if rng.random() < 0.2:
+                p[0] = rng.choice(R_ONLY)
+            if p[1] is not None and rng.random() < 0.2:
+                p[1] = rng.choice(R_ONLY)
     body = encode_multipart(form, boundary, parts)
     ct = _ctype_header(rng, boundary)
     return {"kind": "form", "form": form, "boundary": boundary, "parts": parts, "ct": ct, "ce": rng.random() < 0.03,
@@ -399,6 +409,8 @@ def stats(case, impl):
         out.append("parts:%d" % len(case["parts"]))
         out.append("form:" + case["form"])
         out.append("lossless-clause:" + (_roundtrip_domain(case) or "applies"))
+        if case["form"] == "r" and any(_FORBIDDEN.search(n) or (fn is not None and _FORBIDDEN.search(fn)) for n, fn, _c, _v in case["parts"]):
+            out.append("r-form:control-character-name" + ("/recovered" if isinstance(r, list) else ""))
     if _key(case) in _SKIP:
         out.append("unmodelled")
     return out
